@@ -121,6 +121,24 @@ fn main() {
         "C14" => c_import::check_c14(&ctx),
         "C15" => c_lazy::check_c15(&ctx),
         "C16" => c_vec::check_c16(&ctx),
+        "dbg-guided" => {
+            // dbg-guided <key> <X> <m2:R|W> <Y> <m4> <wclass>: thread0=W, 1=A(holds X wants Y), 2=B(holds Y wants X)
+            use rawdb::verif::Mode as LM;
+            let key = args.get(1).cloned().unwrap_or_default();
+            let md = |c: &str| if c == "W" { LM::Exclusive } else { LM::Shared };
+            let (x, m2, y, m4, wc) = (args[2].clone(), md(&args[3]), args[4].clone(), md(&args[5]), args[6].clone());
+            let all = [(0usize, wc, LM::Exclusive, None), (1usize, y.clone(), m2, Some(x.clone())), (2usize, x, m4, Some(y))];
+            let mut plans = vec![];
+            for order in [[0, 1, 2], [0, 2, 1], [1, 0, 2], [1, 2, 0], [2, 0, 1], [2, 1, 0]] {
+                plans.push(order.iter().map(|&i| all[i].clone()).collect::<Vec<_>>());
+            }
+            let ex = c_sched::explore(&key, c_sched::Mode::Guided(plans), 1e9, &ctx);
+            println!("runs {} outcomes {:?} deadlocks {}", ex.runs, ex.outcomes, ex.deadlocks.len());
+            for (d, sch) in &ex.deadlocks {
+                println!("DEADLOCK {} confirmed={:?}", d.signature, c_sched::confirm_deadlock(&key, sch));
+            }
+            0
+        }
         "dbg-explore" => {
             let key = args.get(1).cloned().unwrap_or_default();
             let runs: usize = args.get(2).and_then(|s| s.parse().ok()).unwrap_or(500);
